@@ -456,6 +456,7 @@ func c05(c *Ctx) {
 	// the file channel's serialised lines reach the rotating file in whole-line batches (shared with C07): a batch that
 	// ends inside a line lets a rotation put the two halves of one event's JSON into two files
 	c07WholeLineBatches(c)
+	releasedMemoryNotRetained(c, "released-memory-not-retained", "the document queued for one event is overwritten by the next event before it is published – invalid JSON or another event's keys", "pushers", "event")
 }
 
 // reviewed dynamic origins: (enclosing function substring, origin description substring) -> reason
